@@ -380,7 +380,7 @@ pub fn finish(meta: Meta, mut st: Stats, started: Instant) -> i32 {
     });
     // sanitizer legs write their own file (merged into the main evidence by ./check)
     let (evdir, evname) = match std::env::var("VERIF_LEG") {
-        Ok(leg) => (meta.root.join("evidence").join("legs"), format!("{}.{}.json", meta.id, leg)),
+        Ok(leg) => (meta.root.join("legs").join("out"), format!("{}.{}.json", meta.id, leg)),
         Err(_) => (meta.root.join("evidence"), format!("{}.json", meta.id)),
     };
     let _ = std::fs::create_dir_all(&evdir);
